@@ -1,7 +1,7 @@
 """C07: overlap detection over memory layouts (all contents of an M-element arena x placements)."""
 import os, sys, json, time, subprocess
 from concurrent.futures import ThreadPoolExecutor
-from . import vbuild, common
+from . import vbuild, common, crosspass
 ROOT = common.ROOT
 BIN = os.path.join(ROOT, "build", "seq", "c07")
 SRC = [os.path.join(ROOT, "engine", "seq", "c07.c")]
@@ -39,6 +39,10 @@ def run(tier, deadline):
                 if o["t"] == "viol": e = viol.setdefault(o["sig"], [0, o["case"], v]); e[0] += o["n"]
                 elif o["t"] == "stat":
                     for k in tot: tot[k] += o[k]
+    # borrowed pass: none of the copy/move entry points leaves a footprint in the library's static storage (a scratch or bounce buffer there would be shared by all callers)
+    fv, fn_, fi = crosspass.footprint("C07", ["strcpy_s", "strncpy_s", "strcat_s", "strncat_s", "stpcpy_s", "stpncpy_s", "strcpyfld_s", "strcpyfldin_s", "strcpyfldout_s", "memcpy_s", "memmove_s", "memcpy16_s", "memcpy32_s", "memmove16_s", "memmove32_s", "memccpy_s",
+                                             "wcscpy_s", "wcsncpy_s", "wcscat_s", "wcsncat_s", "wmemcpy_s", "wmemmove_s", "wcpcpy_s", "wcpncpy_s"], tier, deadline - (time.time() - t0)); internal += fi
+    for sig, case, n in fv: e = viol.setdefault(sig, [0, case, "prod"]); e[0] += n
     if internal:
         for m in internal[:10]: print("INTERNAL-ERROR:", m, file=sys.stderr)
         return 2
@@ -53,6 +57,7 @@ def run(tier, deadline):
 
 
 def replay(kv, quiet=False):
+    if crosspass.is_cross(kv["case"]): return crosspass.replay(kv, quiet)
     build(); c = kv["case"].split()
     r = subprocess.run([BIN, "replay"] + c, capture_output=True, text=True, env=dict(os.environ, CAT_LIB=vbuild.build(kv.get("variant", "prod"))))
     if not quiet: sys.stdout.write(r.stdout); sys.stderr.write(r.stderr)
